@@ -276,7 +276,10 @@ class Module(metaclass=ModuleMeta):
         self.x = kw.get("x", 512)
         self.y = kw.get("y", 512)
         self.layer = kw.get("layer", 0)
-        self.scale = kw.get("scale", 256)
+        # A controller named "scale" (Smooth) takes the "scale" keyword and attribute;
+        # the common module scale is then only reachable as "mod_scale".
+        scale_default = 256 if "scale" in self.controllers else kw.get("scale", 256)
+        self.mod_scale = kw.get("mod_scale", scale_default)
         self.color = kw.get("color", (255, 255, 255))
         self.midi_in_always = kw.get("midi_in_always", False)
         self.midi_in_channel = kw.get("midi_in_channel", 0)
@@ -328,6 +331,15 @@ class Module(metaclass=ModuleMeta):
     @visualization.setter
     def visualization(self, v):
         self._visualization = v
+
+    @property
+    def scale(self):
+        """Module scale (alias of mod_scale, unless the module has a "scale" controller)."""
+        return self.mod_scale
+
+    @scale.setter
+    def scale(self, value):
+        self.mod_scale = value
 
     def clone(self):
         synth = Synth(self)
@@ -395,7 +407,7 @@ class Module(metaclass=ModuleMeta):
             yield b"SXXX", pack("<i", self.x)
             yield b"SYYY", pack("<i", self.y)
             yield b"SZZZ", pack("<i", self.layer)
-        yield b"SSCL", pack("<I", self.scale)
+        yield b"SSCL", pack("<I", self.mod_scale)
         if in_project:
             yield b"SVPR", pack("<I", int(self.visualization))
         yield b"SCOL", pack("BBB", *self.color)
